@@ -521,7 +521,7 @@ def flush(ck, pending):
 
 def run(ck):
   rng = ck.rng
-  total = 500 if ck.tier == 'quick' else 12000
+  total = 400 if ck.tier == 'quick' else 12000
   budget = 45 if ck.tier == 'quick' else 480
   pending = []
   done = 0
